@@ -306,6 +306,9 @@ func Event(site string) {
 	if r == nil {
 		return
 	}
+	if r.me() == nil {
+		return // unscheduled (foreign) goroutines must not perturb the trace hash
+	}
 	now := r.Now()
 	r.mu.Lock()
 	r.mix(r.step, now, "w", site)
